@@ -12,7 +12,9 @@ use crate::report::{finish, Ctx, Report};
 use crate::util::{guarded, hex, run_sharded, show, unhex};
 use redirectionio::html::{TokenType, Tokenizer};
 use serde_json::{json, Value};
-use std::time::Instant;
+use crate::util::stall;
+use std::sync::{Arc, OnceLock};
+use std::time::{Duration, Instant};
 
 pub const ALPHABET: &[u8] = b"<>/!-=\"' ast?[]";
 pub const SUB_ALPHABET: &[u8] = b"<>/!-=\" as?[";
@@ -58,6 +60,15 @@ fn kind_bit(t: TokenType) -> u32 {
     }
 }
 
+/// inputs currently inside the tokenizer, per worker (termination is part of the statement: see util::stall)
+static WATCH: OnceLock<Arc<stall::Watch>> = OnceLock::new();
+
+fn stall_case(bytes: &[u8], meta: &str) -> Value {
+    // meta = "<context>|<allow_cdata>"
+    let (context, cdata) = meta.rsplit_once('|').unwrap_or(("", "true"));
+    json!({"bytes_hex": hex(bytes), "shown": show(bytes), "context": context, "allow_cdata": cdata == "true"})
+}
+
 /// The oracle. Returns Err(description) on any violation of the property.
 pub fn check_bytes(b: &[u8]) -> Result<Stats, String> {
     check_bytes_mode(b, "", true)
@@ -66,6 +77,17 @@ pub fn check_bytes(b: &[u8]) -> Result<Stats, String> {
 /// fragment contexts of the public constructor (raw-text contexts, RCDATA contexts, plaintext, an ordinary
 /// element, odd case) — the statement quantifies over every byte sequence for the tokenizer as such
 pub const CONTEXTS: &[&str] = &["script", "STYLE", "title", "textarea", "plaintext", "xmp", "iframe", "noscript", "div", "Script"];
+
+const CONTEXT_META_TRUE: &[&str] = &["|true", "script|true", "STYLE|true", "title|true", "textarea|true", "plaintext|true", "xmp|true", "iframe|true", "noscript|true", "div|true", "Script|true"];
+const CONTEXT_META_FALSE: &[&str] = &["|false", "script|false", "STYLE|false", "title|false", "textarea|false", "plaintext|false", "xmp|false", "iframe|false", "noscript|false", "div|false", "Script|false"];
+
+fn context_index(context: &str) -> usize {
+    if context.is_empty() {
+        0
+    } else {
+        CONTEXTS.iter().position(|c| *c == context).map(|i| i + 1).unwrap_or(0)
+    }
+}
 
 fn make(b: &[u8], context: &str, allow_cdata: bool) -> Tokenizer {
     let mut t = if context.is_empty() { Tokenizer::new(b.to_vec()) } else { Tokenizer::new_fragment(b.to_vec(), context.to_string()) };
@@ -214,7 +236,14 @@ fn check_and_record_mode(b: &[u8], enumerated: bool, ctx_label: &str, context: &
     if !context.is_empty() || !allow_cdata {
         report.count("inputs_tokenised_in_a_fragment_context_or_without_cdata");
     }
-    match guarded(|| check_bytes_mode(b, context, allow_cdata)) {
+    if let Some(w) = WATCH.get() {
+        w.enter(b, if allow_cdata { CONTEXT_META_TRUE[context_index(context)] } else { CONTEXT_META_FALSE[context_index(context)] });
+    }
+    let outcome = guarded(|| check_bytes_mode(b, context, allow_cdata));
+    if let Some(w) = WATCH.get() {
+        w.leave();
+    }
+    match outcome {
         Err(panic) => {
             report.violation(
                 "panic",
@@ -390,7 +419,40 @@ pub fn run(ctx: &Ctx, _args: &Args) -> i32 {
     let corpus = corpus::html_documents();
     let jobs = ctx.jobs;
 
+    let watch = WATCH.get_or_init(|| stall::Watch::new(jobs)).clone();
+    {
+        let ctx2 = ctx.clone();
+        stall::spawn_monitor(
+            watch.clone(),
+            "C16",
+            ctx.verif_dir.clone(),
+            Duration::from_secs(20),
+            stall_case,
+            Box::new(move |verdict, notes| {
+                let stall::Verdict::NonTerminating { case, .. } = verdict;
+                let mut report = Report::new();
+                report.eval();
+                for n in notes {
+                    report.inconclusive(n);
+                }
+                report.violation(
+                    "non-termination",
+                    format!(
+                        "tokenisation of '{}' does not terminate: replayed alone in a fresh process it was still running after {} s of CPU time (an input needs microseconds)",
+                        case.get("shown").and_then(|v| v.as_str()).unwrap_or("?"),
+                        stall::CPU_LIMIT_ALONE
+                    ),
+                    case,
+                );
+                report.notes.insert("aborted".into(), json!("the run was cut short by the non-termination verdict: counts below are those of the verdict only"));
+                let outcome = finish(&ctx2, report, "run aborted by a confirmed non-terminating input (see violations)", &["RLIMIT_CPU as the clock of the verdict"], started, 0);
+                std::process::exit(outcome.exit_code.max(1));
+            }),
+        );
+    }
+
     let mut report = run_sharded(jobs, |shard, report| {
+        watch.register(shard);
         for len in 0..=max_len {
             if len == 0 && shard != 0 {
                 continue;
